@@ -7,7 +7,8 @@ R12.3 metadata: unparsable file, version mismatch and each mandatory attribute; 
 R12.5 the decoded event is fully defined (every field of struct emu_ev assigned on every path)
 R12.6 a payload shorter than declared never reaches the code that reads it
 R12.7 a stream cut inside an event is not taken for a stream that ended
-(R12.4, model not registered / not enabled and unknown codes, is decided by C14 R14.4 and C18 R18.1)
+R12.4 unknown event codes are rejected by every model (C18 R18.1's evaluation; model not registered / not
+      enabled is C14 R14.4)
 """
 from ovsa import absint, dispatch, effects, errflow, models
 from ovsa.absint import INT, NULL, PTR, TOP, to_lin
@@ -293,6 +294,23 @@ def run(ctx):
                   "with per-stream requirement checks %s (-1 = malformed or incompatible ovni.require entry) the model "
                   "probe returns %s instead of failing: a stream with bad metadata is accepted" % (list(script), got))
 
+    # ---- R12.4 unknown events (the 'handled-is-declared' half of C18 R18.1) ------------------------------
+    ctx.rule("R12.4", "no model's handler accepts an event code that its catalogue does not declare (the dispatch of "
+             "each model interpreted over all 65 536 (category, value) pairs; same evaluation as C18 R18.1)")
+    from rules import C18 as _c18
+    from ovsa.engine import Ctx as _Ctx
+    sub18 = _Ctx("C18", prog, ctx.root, "quick")
+    _c18.run(sub18)
+    n124 = 0
+    for i_ in sub18.instances:
+        if i_["rule"] != "R18.1" or not i_["inst"].endswith("handled-is-declared"):
+            continue
+        n124 += 1
+        if i_["ok"]:
+            ctx.ok("R12.4", "unknown-event:" + i_["inst"], i_["where"])
+        else:
+            ctx.fail("R12.4", "unknown-event:" + i_["inst"], i_["where"], i_["what"] + ": an unknown event is not rejected")
+
     # ---- R12.5 -----------------------------------------------------------------------------------
     ee = prog.fn("emu_ev", "src/emu/emu_ev.c")
     rec = prog.records["emu_ev"]
@@ -375,3 +393,33 @@ def run(ctx):
                               f.loc(node), "%s with %d payload bytes (declared %d) still reaches the read of bytes "
                               "[%d,%d)" % (e.mcv, have, have + 1, offb, offb + size))
     ctx.check(nchk >= 8, "R12.6", "short-payload:checked", "src/emu", "only %d (event, read) pairs checked" % nchk)
+    # wrong payload sizes for the events whose size the model checks: with ev->payload_size bound to each of
+    # 0,2,4,8,12,16 the set of sizes an event can be accepted with must not grow beyond the reference tree's
+    # (spec/C12_sizes.json): a size the model refused stays refused
+    import json as _json
+    import os as _os
+    from ovsa.facts import VERIF as _V
+    with open(_os.path.join(_V, "spec", "C12_sizes.json")) as fh:
+        frozen = _json.load(fh)
+    nsz = 0
+    for m in ms:
+        tab = frozen["models"].get(m.name, {})
+        if not tab:
+            continue
+        evfn = prog.fn(m.hooks["event"])
+        pairs = {dispatch.pair(e.mcv[1], e.mcv[2]): e for e in m.events if e.mcv in tab}
+        ctx.need(len(pairs) == len(tab), "%s: an event of the frozen size table is no longer declared" % m.name)
+        acc_now = {p: set() for p in pairs}
+        for sz in frozen["sizes"]:
+            dsz = dispatch.Dispatch(prog, mchar=m.char, shape={p: (sz, 0) for p in pairs})
+            rsz = dsz.explore(evfn, frozenset(pairs))
+            for p in pairs:
+                if p in rsz.ok:
+                    acc_now[p].add(sz)
+        for p, e in sorted(pairs.items()):
+            nsz += 1
+            extra = sorted(acc_now[p] - set(tab[e.mcv]))
+            ctx.check(not extra, "R12.6", "%s:%s:wrong-sizes-refused" % (m.name, e.mcv), evfn.loc(),
+                      "%s (declared payload %d bytes) is now accepted with a payload of %s bytes; the model refused "
+                      "those sizes (accepted: %s)" % (e.mcv, e.parsed["payload_size"], extra, tab[e.mcv]))
+    ctx.need(nsz >= 10, "R12.6: only %d size-checked events evaluated" % nsz)
